@@ -128,3 +128,73 @@ Theorem C18_accessor_default_iff :
   forall sel n, return_construct sel = NotUnique n <-> n = length sel /\ n <> 1%nat.
 Proof. exact return_construct_not_unique. Qed.
 Print Assumptions C18_accessor_default_iff.
+
+(* ---- second pass: an axis named by an identity of its 1-d coordinates ---- *)
+
+(* _filter_convert_to_domain_axis: a string (not itself a domain axis key) or a
+   pattern that is an identity of at least one 1-d dimension/auxiliary
+   coordinate, and all the 1-d coordinates having it span the one axis [a]
+   - however many they are - stands for [a]. *)
+Theorem C18_axis_named_by_coordinate_identity :
+  forall K E chk v a, wf K (e_root E) -> names_no_axis_key E v ->
+  (exists k, coord1 E k /\ sel_identity [v] k = true) ->
+  (forall k, coord1 E k -> sel_identity [v] k = true -> c_axes k = Some [a]) ->
+  convert1 identities_short true E chk v = [a].
+Proof. exact axis_named_by_coordinate_identity. Qed.
+Print Assumptions C18_axis_named_by_coordinate_identity.
+
+(* ... so filter_by_axis selects, in every axis_mode and from every collection,
+   exactly what it selects when the axis is named by its key. *)
+Theorem C18_axis_by_identity_equals_axis_by_key :
+  forall K E v a m arg, wf K (e_root E) -> names_no_axis_key E v ->
+  (exists k, coord1 E k /\ sel_identity [v] k = true) ->
+  (forall k, coord1 E k -> sel_identity [v] k = true -> c_axes k = Some [a]) ->
+  In a (keys_of (by_type ["domain_axis"] (e_root E))) ->
+  by_axis_gen identities_short true E m [v] arg = by_axis_gen identities_short true E m [VStr a] arg.
+Proof. exact axis_by_identity_equals_axis_by_key. Qed.
+Print Assumptions C18_axis_by_identity_equals_axis_by_key.
+
+(* The exact guard: when two 1-d coordinates with that identity span different
+   axes the value stands for no axis at all. *)
+Theorem C18_identity_on_two_axes_names_no_axis :
+  forall K E chk v k1 k2 a1 a2, wf K (e_root E) -> names_no_axis_key E v ->
+  coord1 E k1 -> coord1 E k2 -> sel_identity [v] k1 = true -> sel_identity [v] k2 = true ->
+  c_axes k1 = Some [a1] -> c_axes k2 = Some [a2] -> a1 <> a2 ->
+  convert1 identities_short true E chk v = [].
+Proof. exact identity_on_two_axes_names_no_axis. Qed.
+Print Assumptions C18_identity_on_two_axes_names_no_axis.
+
+(* Non-vacuity: a dimension and an auxiliary coordinate of one axis share
+   standard_name 'latitude'; the name stands for that axis and selects the
+   three constructs spanning it. *)
+Theorem C18_axis_by_shared_identity_example :
+  wf (keys_of sh_cs) sh_cs /\
+  convert1 identities_short true sh_E true (VStr "latitude") = ["domainaxis0"] /\
+  exists r, by_axis_gen identities_short true sh_E AAnd [VStr "latitude"] sh_cs = Ok r /\
+            keys_of r = ["auxiliarycoordinate0"; "auxiliarycoordinate1"; "dimensioncoordinate0"].
+Proof. exact sh_example. Qed.
+Print Assumptions C18_axis_by_shared_identity_example.
+
+(* domain_axes(identities, filters) and cell_methods(identities, filters), on
+   every path (also when an identity had to be converted to an axis): whatever
+   is returned is of the right type and passes every keyword filter. *)
+Theorem C18_domain_axes_respects_filters :
+  forall K E fs ids r, wf K (e_self E) -> domain_axes cur E fs ids = Ok r ->
+  forall c, In c r ->
+  In c (e_self E) /\ forallb (fun f => selects E AAnd ["and"] f c) (FType ["domain_axis"] :: fs) = true.
+Proof. exact domain_axes_respects_filters. Qed.
+Print Assumptions C18_domain_axes_respects_filters.
+
+Theorem C18_cell_methods_respects_filters :
+  forall K E fs ids r, wf K (e_self E) -> cell_methods cur E fs ids = Ok r ->
+  forall c, In c r ->
+  In c (e_self E) /\ forallb (fun f => selects E AAnd ["and"] f c) (FType ["cell_method"] :: fs) = true.
+Proof. exact cell_methods_respects_filters. Qed.
+Print Assumptions C18_cell_methods_respects_filters.
+
+(* Before C18-fix3-1 the fall-back path forgot the keyword filters. *)
+Theorem C18_old_fallback_forgets_filters_refuted :
+  exists r c, domain_axes old sh_E [FSize [VInt 99]] [VStr "latitude"] = Ok r /\ In c r /\
+              selects sh_E AAnd ["and"] (FSize [VInt 99]) c = false.
+Proof. exact old_fallback_forgets_filters. Qed.
+Print Assumptions C18_old_fallback_forgets_filters_refuted.
